@@ -108,6 +108,11 @@ def case_encrypt(rec, case):
                         fh.write(b)
             except Exception as e:  # noqa
                 exc = e
+        elif route in ("cmd", "cli") and len(pt) <= 60000 and zlib.crc32(f"pipe/{case['n']}".encode()) % 5 == 0:
+            # the firmware arrives through a pipe (`--firmware <(...)`, /dev/stdin): readable once, stat size 0
+            with drive.as_pipe(pt) as pipe_path:
+                exc = X.run_encrypt(route, pipe_path, kname, kid, keysdir, outdir, alg, wd)
+            rec.count("firmware-through-a-pipe")
         else:
             exc = X.run_encrypt(route, fw, kname, kid, keysdir, outdir, alg, wd)
         rec.case(pt + f"/{kid}/{alg}".encode(), size > 0 or kid > 23 or alg != "sha-256",
